@@ -142,7 +142,7 @@ func GenExpr(t *rapid.T, cols []Ident, simple bool) string {
 	forms := []string{
 		c + "+1", c + " || 'x'", "lower(" + c + ")", "abs(" + c + ")", c + " > 5", "(" + c + ")", c + " * 2", c + "-" + c2,
 		"length(" + c + ")", c + " >= 10", c + " = 'lit'", "coalesce(" + c + ", 0)", c + " + " + c2, "substr(" + c + ", 1, 2)",
-		c + "<>3", c + " == " + c2, c + " < 100",
+		c + "<>3", c + " == " + c2, c + " < 100", "(" + c + "+1)", "(" + c + " || 'x')", "(lower(" + c + "))", "((" + c + "))",
 	}
 	if !simple {
 		forms = append(forms,
